@@ -1026,6 +1026,64 @@ def rule_pair_key(model):
     return r
 
 
+def rule_comparator_ties(model):
+    r = RuleResult('C13.R8', 'the case-insensitive comparison functions '
+                   'that sort=key/nocase (and /locale_nocase) select compare '
+                   'the case-folded strings and nothing else: strings that '
+                   'differ in case only compare EQUAL, so the stable sort '
+                   'keeps their original order (a tie-break inside the '
+                   'comparator reorders them)')
+    mk = model.func('DT_In', 'make_sortfunctions')
+    n = 0
+    seen = set()
+    for x in own_nodes(mk.node):
+        if not (isinstance(x, ast.Assign) and isinstance(x.value, ast.Name)
+                and 'nocase' in x.value.id):
+            continue
+        res = model.resolve_global(mk.module, x.value.id)
+        # nested definition inside a module-level `if`
+        fn = None
+        if res and res[0] == 'func':
+            fn = res[1]
+        else:
+            for g in model.all_funcs():
+                if g.name == x.value.id and g.module.short in (
+                        'DT_In', 'sequence', 'DocumentTemplate.sequence'):
+                    fn = g
+        if res and res[0] == 'ext':
+            r.instance(mk.where, x, f'{res[1]} (library, trusted)')
+            n += 1
+            continue
+        if fn is None or id(fn) in seen:
+            if fn is None:
+                r.instance(mk.where, x, 'not resolved')
+            continue
+        seen.add(id(fn))
+        n += 1
+        rets = [y for y in own_nodes(fn.node) if isinstance(y, ast.Return)]
+        ok = len(rets) == 1 and isinstance(rets[0].value, ast.Call) and \
+            len(rets[0].value.args) == 2 and all(
+                isinstance(a, ast.Call) and isinstance(
+                    a.func, ast.Attribute) and a.func.attr in (
+                    'lower', 'casefold', 'upper')
+                for a in rets[0].value.args)
+        r.instance(fn.where, rets[0] if rets else fn.node.name,
+                   'compares the folded strings only' if ok
+                   else 'MORE THAN THE FOLDED STRINGS')
+        if not ok:
+            r.finding(fn.where, rets[0] if rets else fn.node.name,
+                      f'{fn.name}() does not simply compare the case-folded '
+                      'strings: keys that differ in case only no longer '
+                      'compare equal, so sort=key/nocase reorders elements '
+                      'the stable sort must keep in their original order '
+                      '(and reverse is no longer the exact reverse)',
+                      node=rets[0] if rets else fn.node, ctx=fn)
+    if n < 1:
+        raise AnalysisError('C13.R8: the nocase comparison function was not '
+                            'found in make_sortfunctions')
+    return r
+
+
 def _parse_time_derived(fi, key):
     """Attributes of self that __init__ derives from args[key]."""
     def mentions(e, names):
@@ -1137,7 +1195,8 @@ def rule_effective_spec(model):
 
 
 RULES_PLAIN = [rule_mutation, rule_stability, rule_predicate, rule_twins,
-               rule_direction, rule_pair_key, rule_effective_spec]
+               rule_direction, rule_pair_key, rule_effective_spec,
+               rule_comparator_ties]
 RULES = [_inl(r_) for r_ in RULES_PLAIN] if INLINED_VIEW else RULES_PLAIN
 EXPLANATION = (
     'Flow-sensitive may-alias analysis of caller data against every '
